@@ -458,8 +458,11 @@ static void run_cmd(int ntok, char **tok) {
     else if(!strcmp(op, "dl_set_range")) { int d = C(1); int r = (int)AI(2); bool x = zck_dl_set_range(dls[d], r < 0 ? NULL : ranges[r & (NSLOT-1)]); ev_begin("dl_set_range"); ev_int("d", d); ev_int("ret", x); ev_end(); }
     else if(!strcmp(op, "header_cb") || !strcmp(op, "write_chunk_cb") || !strcmp(op, "write_zck_header_cb")) {
         int d = C(1); size_t n; char *b = get_data(A(2), &n);
-        /* copy to an exactly sized heap block so that ASan sees over-reads; callbacks may write a NUL into the buffer */
-        char *x = malloc(n ? n : 1); memcpy(x, b, n);
+        /* copy to an exactly sized heap block so that ASan sees over-reads; callbacks may write a NUL into the buffer.  A header
+         * line is placed flush against an inaccessible page instead: the C library's own formatting code (a log statement
+         * printing the line with %s) is not instrumented, only a fault shows that it read on */
+        int isg = !strcmp(op, "header_cb") && n > 0 && n < 65536;
+        char *x = isg ? guard_buf(n) : malloc(n ? n : 1); memcpy(x, b, n);
         size_t r;
         if(!strcmp(op, "header_cb")) r = zck_header_cb(x, 1, n, dls[d]);
         else if(!strcmp(op, "write_chunk_cb")) r = zck_write_chunk_cb(x, 1, n, dls[d]);
@@ -468,7 +471,7 @@ static void run_cmd(int ntok, char **tok) {
         ev_begin(op); ev_int("d", d); ev_int("n", (long long)n); ev_int("ret", (long long)r);
         if(z) { ev_int("err", zck_is_error(z)); ev_valid(z); }
         if(dls[d]) { ev_int("has_boundary", dls[d]->boundary != NULL); if(dls[d]->boundary && strlen(dls[d]->boundary) < 200) ev_str("boundary", dls[d]->boundary); }
-        ev_end(); free(x); free(b);
+        ev_end(); if(!isg) free(x); free(b);
     }
     else if(!strcmp(op, "fetch")) {
         /* usercb=1: the application's own header / write callbacks are registered on the handle (after the reset, which clears
